@@ -69,6 +69,15 @@ def do_case(ctx, inp):
         prev_ast = cur_ast
         cur_ast = {"c": "Stingy", "args": cur_ast["args"] + [r], "id": cur.id}
         direct = build(cur_ast)
+        if snap(new) != snap(direct):
+            ctx.case(inp, True, tg)
+            ctx.fail("add-differs-from-direct-construction", {"what": "structure", "added_rule": r, "via_add": snap(new), "direct": snap(direct)}); return
+        if r.get("$nested_id"):
+            # the rule's id also names something below the top level: add() accepts it (the refusal concerns top-level ids),
+            # the result is the directly constructed configurator — which validation may well reject; nothing more to observe
+            tg.add("rule-id-occurs-below-top-level")
+            cur = new
+            continue
         oa, ob = observe(new, prio), observe(direct, prio)
         for k in oa:
             if oa[k] != ob[k]:
@@ -94,8 +103,12 @@ def gen_rule(rng, t, k):
     grp = lambda n: [{"c": "str", "id": x} for x in rng.sample(bools, min(n, len(bools)))]
     r = {}
     x = rng.random()
+    nested = sorted({n["id"] for c in t["kids"] if c["k"] == "node" for n in subs(c) if n is not c and not (n["k"] == "node" and n["gen"])})
     if x < 0.2:
         r["id"] = rng.choice([c["id"] for c in t["kids"]])      # an existing top-level rule or item id
+    elif x < 0.3 and nested:
+        r["id"] = rng.choice(nested)                           # an id that occurs BELOW the top level (a nested rule or an item)
+        r["$nested_id"] = True
     elif x < 0.85:
         r["id"] = f"NEW{k}"
     anon = [n for n in subs(t) if n["k"] == "node" and n["gen"] and n["cls"] == "Any" and n["kids"] and all(k["k"] == "leaf" and (k["lo"], k["hi"]) == (0, 1) for k in n["kids"])]
@@ -135,7 +148,7 @@ def run(ctx):
                     ro = build(r)
                     trial = build({"c": "Stingy", "args": base_args + rules + [r], "id": "x"})
                     tt = snap(trial)
-                    ok = "id" in r and any(c["id"] == r["id"] for c in t["kids"]) or (well_formed(tt) and not trial.errors() and free01(tt))
+                    ok = "id" in r and any(c["id"] == r["id"] for c in t["kids"]) or r.get("$nested_id") or (well_formed(tt) and not trial.errors() and free01(tt))
                 except Exception:
                     ok = False
                 if ok:
